@@ -122,6 +122,7 @@ func implHist(p *vproto.Parser) string {
 	k := p.Int()
 	var b strings.Builder
 	var cur geom.Geom
+	doc := make([]byte, 0, 1<<16)
 	for i := 0; i < k; i++ {
 		next := p.Geom()
 		if i == 0 {
@@ -143,8 +144,15 @@ func implHist(p *vproto.Parser) string {
 			b.WriteString("err " + errKind(err))
 			continue
 		}
-		txt := append([]byte(nil), buf...)
-		b.WriteString("ok x" + hex.EncodeToString(txt) + " | " + result(geojson.Decode(buf)))
+		// the document is handed to Decode in ONE buffer that is overwritten from step to step (same address, new
+		// content: the in-place edit seen from the decoder's side); Decode must not change it
+		doc = append(doc[:0], buf...)
+		res := result(geojson.Decode(doc))
+		if string(doc) != string(buf) {
+			b.WriteString("argument-modified")
+			continue
+		}
+		b.WriteString("ok x" + hex.EncodeToString(buf) + " | " + res)
 	}
 	return b.String()
 }
